@@ -101,6 +101,10 @@ def flattenCompoundChars (name : List Char) (frags : List (List Char)) : List Ch
 def flattenCompound (name : String) (frags : List String) : String :=
   String.ofList (flattenCompoundChars name.toList (frags.map String.toList))
 
+/-- every index fragment is free of `_` -/
+def underscoreFree (frags : List (List Char)) : Prop := ∀ f ∈ frags, '_' ∉ f
+
+
 /-- the printed fragment of an index value (`Number` fragments arrive as the text Rust's `f64`
 Display produced); `none` = `WrongExpectedArgument` -/
 def fragmentOf {α : Type} (numText : α → String) : Prim α → Option String
